@@ -89,6 +89,12 @@ def gen():
     with Lock("gen"):
         binp = build_l4gen()
         rc, out, dt = run([binp, "-repo", REPO, "-out", os.path.join(COQ, "gen")], timeout=120)
+        if OUTDIR != VERIF:
+            # private copy for another tree: compiled files were copied from /verif/coq and may have
+            # been built against /repo's generated files; make everything that depends on gen/ rebuild
+            for f in os.listdir(os.path.join(COQ, "gen")):
+                if f.endswith(".v"):
+                    os.utime(os.path.join(COQ, "gen", f), None)
         return rc == 0, out, dt
 
 
@@ -181,13 +187,15 @@ def make_overlay(pkg_rel, files, tag):
     os.makedirs(os.path.join(BUILD, "overlay"), exist_ok=True)
     pkgdir = os.path.join(REPO, pkg_rel)
     pkgname = None
-    for f in sorted(os.listdir(pkgdir)):
-        if f.endswith(".go") and not f.endswith("_test.go"):
-            for line in open(os.path.join(pkgdir, f), errors="replace"):
-                m = re.match(r"package\s+(\w+)", line)
-                if m:
-                    pkgname = m.group(1)
-                    break
+    gofiles = sorted(os.listdir(pkgdir))
+    # prefer a non-test file; a test-only package (e.g. /repo/integration) is named by its tests
+    for f in [g for g in gofiles if g.endswith(".go") and not g.endswith("_test.go")] + \
+             [g for g in gofiles if g.endswith("_test.go") and not g.startswith("zz_verif_")]:
+        for line in open(os.path.join(pkgdir, f), errors="replace"):
+            m = re.match(r"package\s+(\w+)", line)
+            if m:
+                pkgname = m.group(1)
+                break
         if pkgname:
             break
     rep = {}
@@ -198,7 +206,7 @@ def make_overlay(pkg_rel, files, tag):
     rep[os.path.join(pkgdir, "zz_verif_util_test.go")] = up
     for f in files:
         rep[os.path.join(pkgdir, "zz_verif_" + os.path.basename(f))] = os.path.join(OVERLAY, f)
-    op = os.path.join(BUILD, "overlay", "overlay_%s.json" % tag)
+    op = os.path.join(BUILD, "overlay", "overlay_%s_%d.json" % (tag, os.getpid()))
     open(op, "w").write(json.dumps({"Replace": rep}, indent=1))
     return op
 
@@ -208,7 +216,7 @@ def run_engine(prop, eng, seed, tier, extra_env=None):
     Returns dict(ok, log, records, secs)."""
     tag = "%s_%s" % (prop, eng["name"])
     op = make_overlay(eng["pkg"], eng["files"], tag)
-    outp = os.path.join(BUILD, "run", tag + ".jsonl")
+    outp = os.path.join(BUILD, "run", "%s_%d.jsonl" % (tag, os.getpid()))
     os.makedirs(os.path.dirname(outp), exist_ok=True)
     if os.path.exists(outp):
         os.remove(outp)
@@ -233,6 +241,8 @@ def run_engine(prop, eng, seed, tier, extra_env=None):
                     recs.append(json.loads(line))
                 except ValueError:
                     pass
+    if os.path.exists(outp):
+        os.replace(outp, os.path.join(BUILD, "run", tag + ".last.jsonl"))
     return {"ok": rc == 0, "rc": rc, "log": out[-6000:], "records": recs, "secs": dt, "cmd": " ".join(cmd)}
 
 
@@ -246,10 +256,12 @@ def _coqc_shard(args):
 def coq_eval_cases(prop, name, corr_module, case_type, check_fn, cases, shard=400, imports=()):
     """cases: list of Coq terms of type case_type. Evaluates `check_fn` on each inside Coq with
     vm_compute and returns (list of mismatching indices, error-or-None, secs)."""
-    d = os.path.join(BUILD, "cases", "%s_%s" % (prop, name))
+    # private to this process: two checks that share an engine may run at the same time
+    d = os.path.join(BUILD, "cases", "%s_%s_%d" % (prop, name, os.getpid()))
     shutil.rmtree(d, ignore_errors=True)
     os.makedirs(d)
     if not cases:
+        shutil.rmtree(d, ignore_errors=True)
         return [], None, 0.0
     nshards = max(1, min(4 * NPROC, (len(cases) + shard - 1) // shard))
     per = (len(cases) + nshards - 1) // nshards
@@ -285,6 +297,8 @@ def coq_eval_cases(prop, name, corr_module, case_type, check_fn, cases, shard=40
             for n in re.findall(r"(\d+)%N|\b(\d+)\b", m.group(1)):
                 v = n[0] or n[1]
                 bad.append(offsets[path] + int(v))
+    if not err:
+        shutil.rmtree(d, ignore_errors=True)
     return sorted(bad), err, time.time() - t0
 
 
